@@ -750,6 +750,11 @@ Next:
         if (ASMJIT_UNLIKELY(Support::test(options, InstOptions::kX86_ZMask) && !common_info.has_avx512_z())) {
           return make_error(Error::kInvalidKZeroUse);
         }
+
+        // Zeroing-masking is not defined for a memory destination (EVEX.z must be 0).
+        if (ASMJIT_UNLIKELY(op_count > 0 && operands[0].is_mem())) {
+          return make_error(Error::kInvalidKZeroUse);
+        }
       }
 
       // Validate AVX-512 {sae} and {er}.
